@@ -17,7 +17,14 @@ var c16Ops = []string{
 	"A:c1 subscribes t1", "A:c1 unsubscribes t1", "A:c2 subscribes $share/g/t2", "A:session c2 terminated", "A:message on m/x",
 	"cut stream A>B", "cut A>B after next event reaches B", "cut A>B after next ack reaches A", "lose next Hello reply + cut", "link A>B down", "link A>B up",
 	"B loses A (fail+rejoin)", "C joins", "A:c3 subscribes t3", "hold acks B->A", "release acks B->A",
+	"A sees B fail (B keeps its session for A)", "A sees B join again (new peer object and session id)",
 }
+
+// c16MainN: the main tree uses the first c16MainN operations; the last two only occur in
+// the tree about a node that loses and re-creates its peer object.
+const c16MainN = 16
+
+var c16PeerLossAlpha = []int{0, 1, 2, 4, 13, 16, 17, 11, 5}
 
 type c16State struct {
 	nw        *federation.VerifNet
@@ -28,6 +35,7 @@ type c16State struct {
 	lostSess  bool
 	down      bool
 	held      bool
+	aLostB    bool
 	nmsg      int
 }
 
@@ -115,6 +123,19 @@ func c16Apply(st *c16State, op int) bool {
 		}
 		st.held = false
 		st.nw.HoldAcks["A>B"] = false
+	case 16:
+		if st.aLostB || st.down || st.held {
+			return false
+		}
+		st.aLostB = true
+		st.a.Fail("B")
+	case 17:
+		if !st.aLostB {
+			return false
+		}
+		st.aLostB = false
+		st.lostSess = true
+		st.a.Join("B")
 	}
 	return true
 }
@@ -123,7 +144,7 @@ func c16Apply(st *c16State, op int) bool {
 // subscription set, every event has been acknowledged, and messages were applied
 // exactly once in order while the peer session lasted.
 func c16Check(st *c16State, bad func(rule, class, want, got string)) {
-	if st.down || st.held {
+	if st.down || st.held || st.aLostB {
 		return
 	}
 	local := strings.Join(st.a.LocalTopics(), ",")
@@ -260,7 +281,7 @@ func c16Concurrent(obs *c16Obs, cuts int) func() {
 
 func runC16(c *explore.Ctx) {
 	c.Level = "model_checking"
-	c.Rule = "E2 on the real federation code in-package (eventQueue, peer.initStream, stream read/send loops, Hello, sessionMgr, EventStream server loop, eventStreamHandler, fedSubStore, localSubStore, nodeJoin/nodeFail, hook wrappers) with serf and gRPC replaced by a fault-injectable in-memory transport under the cooperative scheduler: every sequence of 14 operations (emit subscribe / unsubscribe / shared subscribe / session end / message; cut now, cut between delivery and ack, cut after ack, lost Hello reply, link down/up, peer loses the session, third node joins) up to the depth, plus directed prefixes; after every operation at quiescence: the peer's view equals the node's local subscriptions, the queue is fully acknowledged, messages were applied exactly once and in order. E3: concurrent emitters and a fault thread under every schedule with <=k deviations."
+	c.Rule = "E2 on the real federation code in-package (eventQueue, peer.initStream, stream read/send loops, Hello, sessionMgr, EventStream server loop, eventStreamHandler, fedSubStore, localSubStore, nodeJoin/nodeFail, hook wrappers) with serf and gRPC replaced by a fault-injectable in-memory transport under the cooperative scheduler: every sequence of 14 operations (emit subscribe / unsubscribe / shared subscribe / session end / message; cut now, cut between delivery and ack, cut after ack, lost Hello reply, link down/up, peer loses the session, third node joins) up to the depth, plus directed prefixes, plus a tree over a 9-operation alphabet in which the node itself sees the peer fail and join again (new peer object and session id while the peer still holds the old session; subscriptions change in between); after every operation at quiescence: the peer's view equals the node's local subscriptions, the queue is fully acknowledged, messages were applied exactly once and in order. E3: concurrent emitters and a fault thread under every schedule with <=k deviations."
 	c.Trusted = []string{"fake transport: whole messages are delivered or an error is returned (gRPC's observable granularity); serf replaced by direct nodeJoin/nodeFail calls; the reconnect loop's back-off timers are not modelled", "vsched"}
 	c.Assumptions = []string{"after the peer lost the session (fail + rejoin) only the resynchronised subscription view and 'no message applied twice' are required"}
 	if rc := replayCase(c); rc != nil {
@@ -272,7 +293,14 @@ func runC16(c *explore.Ctx) {
 		depth = 5
 	}
 	c.Extra["depth"] = depth
-	treeUnits(c, "tree", len(c16Ops), depth, func(seq []int) int {
+	treeUnits(c, "tree-peer-loss", len(c16PeerLossAlpha), depth, func(seq []int) int {
+		full := make([]int, len(seq))
+		for i, e := range seq {
+			full[i] = c16PeerLossAlpha[e]
+		}
+		return c16Run(c, full)
+	})
+	treeUnits(c, "tree", c16MainN, depth, func(seq []int) int {
 		n := c16Run(c, seq)
 		if n == len(seq) && c.Get("executions")%4000 == 0 {
 			names := make([]string, len(seq))
@@ -285,7 +313,7 @@ func runC16(c *explore.Ctx) {
 	})
 	for pi, prefix := range [][]int{{0, 9, 11}, {4, 12, 0}, {4, 6, 4}, {14, 4, 4}} {
 		prefix := prefix
-		treeUnits(c, fmt.Sprintf("directed%d", pi), len(c16Ops), depth-1, func(seq []int) int {
+		treeUnits(c, fmt.Sprintf("directed%d", pi), c16MainN, depth-1, func(seq []int) int {
 			full := append(append([]int{}, prefix...), seq...)
 			n := c16Run(c, full) - len(prefix)
 			if n < 0 {
